@@ -8,7 +8,7 @@ namespace PolytuneModel.Server
 def lookupH (d : List (Net × Nat)) (t : Net) : Nat := ((d.find? (fun e => e.1 == t)).map (·.2)).getD 0
 
 def relax (su : Setup) (all : List Net) (d : List (Net × Nat)) : List (Net × Nat) :=
-  all.map fun s => (s, (successors Cfg.pinned su s).foldl (fun m t => max m (1 + lookupH d t)) 0)
+  all.map fun s => (s, (successors Cfg.current su s).foldl (fun m t => max m (1 + lookupH d t)) 0)
 
 def heights (su : Setup) (all : List Net) : Nat → List (Net × Nat)
   | 0 => all.map fun s => (s, 0)
@@ -17,7 +17,7 @@ def heights (su : Setup) (all : List Net) : Nat → List (Net × Nat)
 def heightOf (su : Setup) (s : Net) : Nat := lookupH (heights su (statesOf su) 40) s
 
 def termCertificate (su : Setup) : Bool :=
-  (statesOf su).all fun s => (successors Cfg.pinned su s).all fun t => decide (heightOf su t < heightOf su s)
+  (statesOf su).all fun s => (successors Cfg.current su s).all fun t => decide (heightOf su t < heightOf su s)
 
 theorem C13_n2_term_certificates : allSetups2'.all termCertificate = true := by decide +kernel
 
@@ -25,7 +25,7 @@ theorem C13_n2_term_certificates : allSetups2'.all termCertificate = true := by 
     state `s` at most `heightOf su s` further deliveries are possible — together with `C13_n2_reachable_ok`, every maximal
     history ends in a good final state. -/
 theorem C13_n2_terminates (su : Setup) (hsu : su ∈ allSetups2') (s t : Net)
-    (h : Reach (successors Cfg.pinned su) (initNet su) s) (ht : t ∈ successors Cfg.pinned su s) :
+    (h : Reach (successors Cfg.current su) (initNet su) s) (ht : t ∈ successors Cfg.current su s) :
     heightOf su t < heightOf su s := by
   have hc : certificate su = true := List.all_eq_true.mp C13_n2_certificates su hsu
   simp only [certificate, Bool.and_eq_true, List.all_eq_true, List.contains_iff_mem] at hc
